@@ -135,3 +135,98 @@ Theorem C18_writer_reads_only_rtl_ci :
   forall c t, Writer.compile c (MaskProofs.mask_node t) = Writer.compile c t.
 Proof. exact MaskProofs.mask_compile. Qed.
 Print Assumptions C18_writer_reads_only_rtl_ci.
+
+(* ===================== C18 on the parser model itself (Model/Parser.v, the model leg c10-parse ties to syntax.Parse) =====================
+   Not the token abstraction above: the pattern TEXT, both passes, every scanner, the mandatory reducers.
+   "(?cs)" ++ p under the option word o   against   p under o2 = inline_word o cs, the word "(?cs)" makes of o.
+   cs: any non-empty string of option characters  + - i m n s x u  in either case ("(?i)", "(?imsnx)", "(?im-sx)");
+   for letters only, o2 = o with exactly these bits switched on (C18_parser_inline_word_letters).  Every option word o
+   (RightToLeft, ECMAScript, RE2, Unicode included), every pattern text p (malformed ones too), every oracle.
+
+   C18_parser_leading_group_exact: the first round of BOTH passes (countCaptures and scanRegex) consumes exactly "(?cs)"
+     and switches the options; what follows is the parse of p from the initial state whose three nodes -- the root Capture,
+     its Alternate, the first Concatenate -- were made under o while o2 is in force (parse_from o o2).
+   C18_parser_leading_group_same_parse: hence the two spellings give the same error code, the same capture table
+     (Caps, Captop), and the same tree up to the Options field of exactly these nodes as they survive the reducers: the
+     root; its child when that is the Alternate / Concatenate / Empty / Nothing made from them; the first alternative
+     when that is the Concatenate / Empty made from the first Concatenate.  [norm] blanks these fields except their
+     RightToLeft bit (which inline options cannot change and is equal).  Every other node, every other field is equal.
+     (The reference semantics and the writer read only RightToLeft and IgnoreCase of a node:
+     C18_semantics_reads_only_rtl_ci, C18_writer_reads_only_rtl_ci; and none of the three kinds reads IgnoreCase.)
+   What is FALSE, with witnesses below:
+     - literal equality of the trees: "(?m)a.|c" under 0 and "a.|c" under Multiline differ in these three Options;
+     - the empty option string: "(?)a" is an error (a quantifier with nothing to repeat), "a" is not;
+     - the wrapped spelling "(?cs:" ++ p ++ ")" as a statement about every p: under x-mode a final comment swallows the
+       ")" ("(?x:a#)" is ErrNotEnoughParens, "a#" under x parses), and error codes differ ("(?i:\)" / "\").
+       On the examples where it parses, the wrapped spelling gives the compile-time tree with the ROOT Options of o
+       (the Group node is removed by the mandatory reducer reduceGroup, Alternate and Concatenate are made under o2);
+       no general proof (it needs "no final comment" and the pre-scan / main-pass agreement on unbalanced ")"). *)
+From Verif Require Model.ParseLit Model.CharClass Model.Parser Proofs.ParserInline.
+
+Theorem C18_parser_leading_group_exact :
+  forall (is_word_char : Z -> bool) (to_lower simple_fold : Z -> Z) (participates : Z -> bool)
+         (cat_in : Z -> Z -> bool) (cat_name : list Z -> Z) (cs : list Z),
+    cs <> [] -> forallb ParserInline.ochar cs = true ->
+    forall (o : Z) (mco : bool) (p : list Z),
+    Parser.parse is_word_char to_lower simple_fold participates cat_in cat_name o mco (ParserInline.inline_prefix cs ++ p) =
+    ParserInline.parse_from is_word_char to_lower simple_fold participates cat_in cat_name o (ParserInline.inline_word o cs) mco p.
+Proof. exact ParserInline.parse_inline_prefix. Qed.
+Print Assumptions C18_parser_leading_group_exact.
+
+Theorem C18_parser_leading_group_same_parse :
+  forall (is_word_char : Z -> bool) (to_lower simple_fold : Z -> Z) (participates : Z -> bool)
+         (cat_in : Z -> Z -> bool) (cat_name : list Z -> Z) (cs : list Z) (o : Z) (mco : bool) (p : list Z),
+    cs <> [] -> forallb ParserInline.ochar cs = true ->
+    ParserInline.norm_res (Parser.parse is_word_char to_lower simple_fold participates cat_in cat_name o mco (ParserInline.inline_prefix cs ++ p)) =
+    ParserInline.norm_res (Parser.parse is_word_char to_lower simple_fold participates cat_in cat_name (ParserInline.inline_word o cs) mco p).
+Proof. exact ParserInline.parse_inline_norm. Qed.
+Print Assumptions C18_parser_leading_group_same_parse.
+
+(* the nodes made before the first character was read differ in nothing but Options: the same statement for ANY two
+   option words with equal RightToLeft in the place of o and o2 *)
+Theorem C18_parser_initial_node_options_only :
+  forall (is_word_char : Z -> bool) (to_lower simple_fold : Z -> Z) (participates : Z -> bool)
+         (cat_in : Z -> Z -> bool) (cat_name : list Z -> Z) (on oc : Z) (mco : bool) (p : list Z),
+    ParseLit.useRTL oc = ParseLit.useRTL on ->
+    ParserInline.norm_res (ParserInline.parse_from is_word_char to_lower simple_fold participates cat_in cat_name on oc mco p) =
+    ParserInline.norm_res (ParserInline.parse_from is_word_char to_lower simple_fold participates cat_in cat_name oc oc mco p).
+Proof. exact ParserInline.parse_from_relabel. Qed.
+Print Assumptions C18_parser_initial_node_options_only.
+
+(* "(?imnsx)" with letters only: o2 = o with these bits on *)
+Theorem C18_parser_inline_word_letters :
+  forall (cs : list Z) (o : Z), forallb ParserInline.oletter cs = true ->
+    ParserInline.inline_word o cs = fold_left (fun a c => Z.lor a (Parser.option_from_code c)) cs o.
+Proof. exact ParserInline.inline_word_letters. Qed.
+Print Assumptions C18_parser_inline_word_letters.
+
+(* witnesses (ASCII oracles) *)
+Definition c18_word (c : Z) : bool := ((48 <=? c) && (c <=? 57)) || ((65 <=? c) && (c <=? 90)) || ((97 <=? c) && (c <=? 122)) || (c =? 95).
+Definition c18_parse (o : Z) (p : list Z) : res Parser.presult :=
+  Parser.parse c18_word (fun c => c) (fun c => c) (fun _ => true) (fun _ _ => false) (fun _ => -1) o false p.
+Definition c18_is_tree (r : res Parser.presult) : bool := match r with Ok (Parser.PR_Tree _ _ _) => true | _ => false end.
+Definition c18_root_o (o : Z) (r : res Parser.presult) : res Parser.presult :=
+  match r with Ok (Parser.PR_Tree t c k) => Ok (Parser.PR_Tree (ParserInline.seto o t) c k) | x => x end.
+
+(* "(?m)a.|c" under 0 / "a.|c" under Multiline (2): the root, the Alternate and the first Concatenate carry 0 / 2,
+   everything else is equal; "(?imsnx)" switches on 1+2+16+4+32 *)
+Example C18_parser_witness_leading :
+  c18_parse 0 [40; 63; 109; 41; 97; 46; 124; 99] <> c18_parse 2 [97; 46; 124; 99] /\
+  c18_is_tree (c18_parse 2 [97; 46; 124; 99]) = true /\
+  ParserInline.norm_res (c18_parse 0 [40; 63; 109; 41; 97; 46; 124; 99]) = ParserInline.norm_res (c18_parse 2 [97; 46; 124; 99]) /\
+  ParserInline.inline_word 64 [105; 109; 115; 110; 120] = 64 + 55.
+Proof. vm_compute. repeat split; try reflexivity. discriminate. Qed.
+
+(* "(?)a" is an error, "a" is not *)
+Example C18_parser_witness_empty_option_string :
+  c18_parse 0 [40; 63; 41; 97] = Ok (Parser.PR_Err 36) /\ c18_is_tree (c18_parse 0 [97]) = true.
+Proof. vm_compute. split; reflexivity. Qed.
+
+(* the wrapped spelling: "(?m:a.|c)" under 0 is "a.|c" under Multiline with the root Options 0;
+   "(?x:a#)" under 0 is ErrNotEnoughParens (34) while "a#" under x (32) parses; "(?i:\)" is 34 while "\" under i is
+   ErrIllegalEndEscape (1) *)
+Example C18_parser_witness_wrapped :
+  c18_parse 0 [40; 63; 109; 58; 97; 46; 124; 99; 41] = c18_root_o 0 (c18_parse 2 [97; 46; 124; 99]) /\
+  c18_parse 0 [40; 63; 120; 58; 97; 35; 41] = Ok (Parser.PR_Err 34) /\ c18_is_tree (c18_parse 32 [97; 35]) = true /\
+  c18_parse 0 [40; 63; 105; 58; 92; 41] = Ok (Parser.PR_Err 34) /\ c18_parse 1 [92] = Ok (Parser.PR_Err 1).
+Proof. vm_compute. repeat split; reflexivity. Qed.
